@@ -15,7 +15,7 @@
     The converse for the third part is ProofsInh.v ([*_discards]). *)
 From Coq Require Import List String Bool Arith ZArith NArith Lia.
 From MX Require Import Alive.Model Alive.ProofsBase Alive.ProofsRes Alive.ProofsStr Alive.ProofsDer
-  Alive.ProofsStep Alive.ProofsTop Alive.ProofsInh Alive.ProofsAcyc.
+  Alive.ProofsStep Alive.ProofsTop Alive.ProofsInh Alive.ProofsAcyc Alive.ProofsNcc.
 Import ListNotations.
 
 (** ---- specification-level notions ---- *)
@@ -454,6 +454,65 @@ Proof.
   destruct HI as [_ [[_ [_ [_ [_ H5]]]] _]]. destruct Hin as [Hin|Hin].
   - subst r. rewrite Hk in Hst. discriminate.
   - pose proof (H5 _ _ Hst Hin) as Hc. rewrite Hk in Hc. discriminate.
+Qed.
+
+(** ---- the closure, sharp: nothing is inside a cells ([Ncc], ProofsNcc.v) ---- *)
+Definition Inv3 (st : state) : Prop := Inv st /\ Acyc st /\ Ncc st.
+
+Theorem inv3_run : forall ft ops, Inv3 (run ft ops).
+Proof.
+  intros ft ops. destruct (inv2_run ft ops) as [HI HA]. split; [exact HI|split; [exact HA|apply ncc_run]].
+Qed.
+
+Lemma undefined_self : forall st G v d T,
+  Ncc st -> st_objs G = st_objs st -> (d = v \/ In d (chain_of st v)) -> undefined_in G d T -> undefined_in G v T.
+Proof.
+  intros st G v d T HN Ho [He|Hin] Hu; [subst d; exact Hu|]. exfalso.
+  destruct Hu as [_ [Hd _]]. apply is_derived_kindof in Hd. apply (HN v d Hin).
+  unfold kind_of, get_obj in *. rewrite <- Ho. exact Hd.
+Qed.
+
+Theorem del_space_closure_sharp : forall st p x st' o v,
+  Inv3 st -> step_del_space st p x = (st', o) -> alive st v = true -> alive st' v = false ->
+  (v = x \/ In x (chain_of st v))
+  \/ (exists T, undefined_in (without st x) v T)
+  \/ (exists r W, (r = v \/ In r (chain_of st v)) /\ In r (dyn_roots st W) /\
+        (W = x
+         \/ (exists y, In y (under_set st [x]) /\ is_kind st KSpace y = true /\ In W (subs_of st y))
+         \/ (W = p /\ is_kind st KSpace p = true)
+         \/ exists d, undefined_in (without st x) d W)).
+Proof.
+  intros st p x st' o v [HI [HA HN]] E Hv Hdead.
+  destruct (del_space_closure st p x st' o v (conj HI HA) E Hv Hdead) as [H|[[d [T [Hin Hu]]]|H]];
+    [left; exact H| |right; right; exact H].
+  right; left. exists T. exact (undefined_self st (without st x) v d T HN eq_refl Hin Hu).
+Qed.
+
+Theorem del_cells_closure_sharp : forall st s c st' v,
+  Inv3 st -> step_del_cells st s c = (st', ODone) -> alive st v = true -> alive st' v = false ->
+  v = c
+  \/ (exists T, undefined_in (without st c) v T)
+  \/ (exists r W, (r = v \/ In r (chain_of st v)) /\ In r (dyn_roots st W) /\
+        (In W (s :: subs_of st s) \/ exists d, undefined_in (without st c) d W)).
+Proof.
+  intros st s c st' v [HI [HA HN]] E Hv Hdead.
+  destruct (del_cells_closure st s c st' v (conj HI HA) E Hv Hdead) as [[H|H]|[[d [T [Hin Hu]]]|H]];
+    [left; exact H| | |right; right; exact H].
+  - exfalso. destruct (del_cells_shape _ _ _ _ E) as [Hc _]. apply (HN v c H).
+    unfold is_defined in Hc. unfold kind_of. destruct (get_obj st c) as [oc|]; [|discriminate].
+    apply andb_true_iff in Hc as [Hc _]. apply kind_eqb_eq in Hc. exact Hc.
+  - right; left. exists T. exact (undefined_self st (without st c) v d T HN eq_refl Hin Hu).
+Qed.
+
+Theorem remove_bases_closure_sharp : forall st s bs st' v,
+  Inv3 st -> step_remove_bases st s bs = (st', ODone) -> alive st v = true -> alive st' v = false ->
+  (exists T, undefined_in (cut_bases st s bs) v T)
+  \/ (exists r W, (r = v \/ In r (chain_of st v)) /\ In r (dyn_roots st W) /\
+        (In W (s :: subs_of st s) \/ exists d, undefined_in (cut_bases st s bs) d W)).
+Proof.
+  intros st s bs st' v [HI [HA HN]] E Hv Hdead.
+  destruct (remove_bases_closure st s bs st' v (conj HI HA) E Hv Hdead) as [[d [T [Hin Hu]]]|H]; [|right; exact H].
+  left. exists T. exact (undefined_self st (cut_bases st s bs) v d T HN eq_refl Hin Hu).
 Qed.
 
 (** ---- the sets used above, in words ---- *)
